@@ -448,3 +448,7 @@ _add(
     "C26",
     m("update-context-reads-own-dict", T, "        prev_context = self.get_task_option(\"_context_override\", {})", "        prev_context = self._task_options_override.get(\"_context_override\", {})", "C26.4"),
 )
+_add(
+    "C15",
+    m("positional-only-default-by-keyword", S, "        elif param.kind == param.POSITIONAL_ONLY:\n            # A positional-only parameter cannot be passed by keyword. The function applies its\n            # own default.\n            continue\n\n", "", "C15.5"),
+)
